@@ -46,6 +46,7 @@ func renderData(n1, n2, n3 int) (data.Map, data.Map) {
 		"b": data.Map{"x": mk("b.x"), "a": mk("b.a"), "x_2": mk("b.x_2"), "name": mk("b.<name>")},
 		"n": data.Int(n1), "eggs": data.Int(n2), "num": data.Int(n1 + 40),
 		"lst": data.List{data.Int(1), data.Int(2), data.Int(3)},
+		"_": mk("_"), "\u00e9": mk("e-acute"),
 	}
 	ij := data.Map{"x": mk("ij.x"), "name": mk("ij.name")}
 	return d, ij
@@ -53,7 +54,7 @@ func renderData(n1, n2, n3 int) (data.Map, data.Map) {
 
 var dataKeys = []string{"x", "x_1", "x1", "x_2", "x_1_1", "fooBar2", "name", "X", "url", "a", "b", "n", "eggs", "num", "lst"}
 
-var dollarRe = regexp.MustCompile(`\$([a-zA-Z_][a-zA-Z0-9_]*)`)
+var dollarRe = regexp.MustCompile(`\$([\p{L}_][\p{L}\p{N}_]*)`)
 
 // paramsOf lists the top-level data keys a piece of soy source refers to.
 func paramsOf(src string) map[string]bool {
@@ -69,10 +70,17 @@ func paramsOf(src string) map[string]bool {
 // ---------------------------------------------------------------------------
 // generator of message bodies (every print evaluates without error on renderData)
 
-type rGen struct{ r *RNG }
+type rGen struct {
+	r         *RNG
+	unguarded bool
+}
 
 func (m *rGen) print() string {
 	r := m.r
+	if m.unguarded && r.Chance(1, 6) {
+		// documented limits: names outside [A-Z0-9_]+ (empty name, non-ASCII identifier)
+		return "{" + r.Pick([]string{"$_", "$\u00e9"}) + "}"
+	}
 	e := r.Pick([]string{
 		"$a.x", "$b.x", "$x", "$x_1", "$x1", "$a.x_1", "$x_2", "$b.x_2", "$x_1_1", "$fooBar2", "$a.fooBar2",
 		"$name", "$a.name", "$b.name", "$b.a", "$a.b.a", "$a.b.x", "$ij.x", "$ij.name", "$X", "$url",
@@ -485,6 +493,7 @@ func segsOf(children []ast.Node) []seg {
 
 var c11Expected = map[string]string{}
 var c11Why = map[string]string{}
+var c11Validate = map[string]bool{}
 
 var phShape = regexp.MustCompile(`\{[A-Z0-9_]+\}`)
 var nameShape = regexp.MustCompile(`^[A-Z0-9_]+$`)
@@ -492,6 +501,12 @@ var nameShape = regexp.MustCompile(`^[A-Z0-9_]+$`)
 func c11Oracle(c *Case, impl string) *Viol {
 	if strings.HasPrefix(impl, "PANIC") || impl == "HANG" || impl == "OOM" {
 		return &Viol{What: "rendering a message panics / hangs: " + impl}
+	}
+	if v, ok := c11Validate[c.Req]; ok {
+		f := strings.Split(impl, " ")
+		if len(f) != 4 || (f[1] == "1") != v {
+			return &Viol{What: "pomsg.Validate disagrees with the PO-representability rule (text reading as a placeholder, plural shape)", Want: bit(v)}
+		}
 	}
 	if want, ok := c11Expected[c.Req]; ok && want != impl {
 		return &Viol{What: "translated render differs from the output assembled from the translation and the data (" + c11Why[c.Req] + ")", Want: want}
@@ -504,8 +519,8 @@ func genC11msg(g *G) {
 	n := g.N(2500, 30000)
 	skipped := 0
 	for i := 0; i < n; i++ {
-		m := &rGen{r: g.R}
 		unguarded := unguardedOK && g.R.Chance(1, 4)
+		m := &rGen{r: g.R, unguarded: unguarded}
 		var body, class string
 		switch k := g.R.Intn(10); {
 		case k < 5:
@@ -682,13 +697,28 @@ func c11Cases(g *G, body, meaning, class string) bool {
 		return sb.String(), true
 	}
 
+	ok := func(s string) string { return "OK " + hxs(s) }
 	add := func(mode, varName string, msgstrs []string, selKind int, want, why, cls string, nt bool) {
 		c := Case{
 			Req: req("msgrender", hxs(file), abs, join(rhoF), join(nuF), mode, hxs(varName), hexList(msgstrs), itoa(selKind),
 				fmt.Sprintf("%d,%d,%d", n1, n2, n3)),
 			NT: nt, Class: cls, Note: mode + " var=" + varName + " " + strings.Join(msgstrs, " | ") + " :: " + body,
 		}
-		if ambiguous == "" || mode == "nobundle" || mode == "missing" {
+		if mode == "tr" {
+			// newBundle leaves an entry whose msgstrs are all empty out of the bundle
+			all := true
+			for _, ms := range msgstrs {
+				if ms != "" {
+					all = false
+				}
+			}
+			if all {
+				want, why = ok(source), "untranslated entry (all msgstrs empty): source render"
+			}
+		}
+		if strings.HasPrefix(cls, "unguarded:text-looks-like-placeholder") {
+			// not PO-representable (Validate rejects the message): no claim, the model tie only
+		} else if ambiguous == "" || mode == "nobundle" || mode == "missing" {
 			c11Expected[c.Req] = want
 			c11Why[c.Req] = why
 		} else {
@@ -697,9 +727,32 @@ func c11Cases(g *G, body, meaning, class string) bool {
 		}
 		g.Add(c)
 	}
-	ok := func(s string) string { return "OK " + hxs(s) }
-
-	g.Add(Case{Req: req("pomsgid", hxs(file), abs), NT: len(phs) > 0, Class: "pomsgid", Note: body})
+	// Validate, from the property's wording: a plural must be the first child with exactly
+	// {case 1} + {default}; the literal text of the body / of those two bodies has no {NAME}
+	litOK := func(children []ast.Node) bool {
+		var txt strings.Builder
+		for _, c := range children {
+			if t, isText := c.(*ast.RawTextNode); isText {
+				txt.Write(t.Text)
+			} else {
+				txt.WriteByte(0)
+			}
+		}
+		return !phShape.MatchString(txt.String())
+	}
+	valid := litOK(cm.node.Body.Children())
+	for i, c := range cm.node.Body.Children() {
+		if p, isPl := c.(*ast.MsgPluralNode); isPl {
+			if i != 0 || len(p.Cases) != 1 || p.Cases[0].Value != 1 {
+				valid = false
+			} else if !litOK(p.Cases[0].Body.Children()) || !litOK(p.Default.Children()) {
+				valid = false
+			}
+		}
+	}
+	pc := Case{Req: req("pomsgid", hxs(file), abs), NT: len(phs) > 0, Class: "pomsgid", Note: body}
+	c11Validate[pc.Req] = valid
+	g.Add(pc)
 	add("nobundle", "", nil, 1, ok(source), "no bundle: source render", class+"/nobundle", len(phs) > 1 || len(plurals) > 0)
 	add("missing", "", nil, 1, ok(source), "message absent from the catalogue: source render", class+"/missing", len(phs) > 1 || len(plurals) > 0)
 
